@@ -36,7 +36,9 @@ EXPLANATION = (
     ' '
     'R-C09.11 the loops registering the four kinds of declared requirements are not nested in one another.'
     ' '
-    'R-C09.1 follows single-assignment copies of the key arguments; R-C09.12 no add_dependency call of EvolutionGraph is conditional on what the graph already contains.')
+    'R-C09.1 follows single-assignment copies of the key arguments; R-C09.12 no add_dependency call of EvolutionGraph is conditional on what the graph already contains.'
+    ' '
+    "R-C09.5 classifies the walk's sets on the CFG within one iteration: the in-progress set is the one marked before the dependencies are scanned.")
 NOT_DECIDED = (
     'Correctness of the topological sort on all graphs, and the behaviour '
     'of Django\'s own migration planner.')
@@ -444,37 +446,48 @@ def r5_error_path(ctx):
     if not rets:
         raise AnalysisError('R-C09.5: get_ordered no longer returns a local')
     result = rets[-1].value.id
-    # blocks of the walk: the ones that emit (result.append) and the ones
-    # that expand (read .dependencies); sets added to in an emitting block
-    # are "emitted" sets, sets added to in an expanding block "in-progress"
+    # classify the sets of the walk on the CFG, within one iteration of the
+    # worklist loop (paths that do not go through the `while` head):
+    #   emitted     - S.add(..) from which the emit (result.append) is
+    #                 reachable, or which is reachable from it
+    #   in-progress - S.add(..) from which the scan of `.dependencies` is
+    #                 reachable (the node is marked *before* its dependencies
+    #                 are looked at) and the emit is not
     dep_sites = [n for n in walk_no_nested(fn)
                  if isinstance(n, ast.Attribute) and n.attr == 'dependencies']
     if not dep_sites:
         raise AnalysisError('R-C09.5: get_ordered no longer reads '
                             '.dependencies')
-    blocks = []
-    for n in walk_no_nested(fn):
-        for blk in ('body', 'orelse', 'finalbody'):
-            b = getattr(n, blk, None)
-            if isinstance(b, list) and b and isinstance(b[0], ast.stmt):
-                blocks.append(b)
+    g = ctx.cfg(f)
+    heads = [n for n in g.nodes if isinstance(n.stmt, ast.While)
+             and n.kind in ('test', 'operand', 'loop', 'while')]
+    if not heads:
+        heads = [n for n in g.nodes if isinstance(n.stmt, ast.While)]
+    dep_nodes = [n for n in g.nodes
+                 if any(d is x for d in dep_sites for x in n.walk())]
+    emit_nodes = [n for n in g.nodes if any(
+        call_name(c) == 'append' and isinstance(c.func, ast.Attribute) and
+        isinstance(c.func.value, ast.Name) and c.func.value.id == result
+        for c in n.calls())]
     emitted, in_progress = {result}, set()
-    for b in blocks:
-        inner = [c for st in b for c in ast.walk(st)]
-        adds = {c.func.value.id for c in inner
-                if isinstance(c, ast.Call) and
-                isinstance(c.func, ast.Attribute) and c.func.attr == 'add'
-                and isinstance(c.func.value, ast.Name)}
-        has_append = any(isinstance(c, ast.Call) and
-                         isinstance(c.func, ast.Attribute) and
-                         c.func.attr == 'append' and
-                         isinstance(c.func.value, ast.Name) and
-                         c.func.value.id == result for c in inner)
-        has_deps = any(c is d for c in inner for d in dep_sites)
-        if has_append and not has_deps:
-            emitted |= adds
-        if has_deps and not has_append:
-            in_progress |= adds
+    for n in g.nodes:
+        for c in n.calls():
+            if not (call_name(c) == 'add' and
+                    isinstance(c.func, ast.Attribute) and
+                    isinstance(c.func.value, ast.Name)):
+                continue
+            name = c.func.value.id
+            fwd = g.reachable([s_ for s_, _l in n.succ], avoid=heads,
+                              follow_exc=False)
+            to_emit = any(e.id in fwd or e is n for e in emit_nodes)
+            from_emit = any(
+                n.id in g.reachable([s_ for s_, _l in e.succ], avoid=heads,
+                                    follow_exc=False) for e in emit_nodes)
+            to_deps = any(d.id in fwd for d in dep_nodes)
+            if to_emit or from_emit:
+                emitted.add(name)
+            elif to_deps:
+                in_progress.add(name)
     in_progress -= emitted
     ctx.counts['R-C09.5 in-progress sets of the walk'] = len(in_progress)
 
